@@ -496,7 +496,7 @@ def parse_config(path):
         _input["paths"] = None
 
     # Output fields are optional, default: most data output, least logging output.
-    _output = toml.get("output", {})
+    _output = toml.setdefault("output", {})
     if "directory" in _output:
         _output["directory"] = resolve_path(_output["directory"], path.parent)
     else:
@@ -572,15 +572,16 @@ def _parse_config_params(toml):
             f"invalid phase assemblage: {_params['phase_assemblage']}"
         ) from None
 
-    # Make sure initial olivine fabric is valid.
-    try:
-        _params["initial_olivine_fabric"] = getattr(
-            _core.MineralFabric, "olivine_" + _params["initial_olivine_fabric"]
-        )
-    except AttributeError:
-        raise _err.ConfigError(
-            f"invalid initial olivine fabric: {_params['initial_olivine_fabric']}"
-        ) from None
+    # Make sure initial olivine fabric is valid (the default is already an enum member).
+    if not isinstance(_params["initial_olivine_fabric"], _core.MineralFabric):
+        try:
+            _params["initial_olivine_fabric"] = getattr(
+                _core.MineralFabric, "olivine_" + _params["initial_olivine_fabric"]
+            )
+        except (AttributeError, TypeError):
+            raise _err.ConfigError(
+                f"invalid initial olivine fabric: {_params['initial_olivine_fabric']}"
+            ) from None
 
     # Make sure we have enough unified dislocation creep law coefficients.
     n_provided = len(_params["disl_coefficients"])
@@ -687,6 +688,9 @@ def _parse_config_input_postpaths(input, path):
 
 
 def _parse_output_options(output_opts, level, phase_assemblage):
+    if level not in output_opts:  # Default: output for all simulated phases.
+        output_opts[level] = list(phase_assemblage)
+        return
     try:
         output_opts[level] = [
             getattr(_core.MineralPhase, ϕ) for ϕ in output_opts[level]
